@@ -47,3 +47,6 @@ pub fn vx_str_contains(s: &String, pat: &str) -> (r: bool) { s.contains(pat) }
 // format! whose format string has literal text outside the placeholders: the result is never empty
 #[verifier::external_body]
 pub fn vx_fmt_nonempty() -> (r: String) ensures r@.len() > 0 { String::from("x") }
+
+pub assume_specification<T>[Option::<T>::replace](o: &mut Option<T>, v: T) -> (r: Option<T>)
+    ensures r == *old(o), *final(o) == Some(v);
